@@ -31,6 +31,11 @@ CATALOGUE = [
     [('f', 'x1'), ('f', 'x2'), ('f', 'x10'), ('d', 'x'), ('f', 'x/x1'), ('d', 'x/x'), ('f', 'x/x/x1'), ('f', '1'), ('f', '2')],
     # 11: only hidden entries
     [('f', '.a'), ('d', '.d'), ('f', '.d/.a'), ('f', '.d/a'), ('l', '.l', '.d')],
+    # 12: sibling directories that differ only in case, with several levels below them
+    [('f', 'top/pkg/src/lib/mod.py'), ('f', 'top/PKG/src/lib/mod.py'), ('f', 'top/pkg/src/lib/notes.txt'), ('f', 'top/PKG/src/lib/notes.txt'),
+     ('f', 'top/pkg/a'), ('f', 'top/Pkg/src/x'), ('f', 'TOP/pkg/src/lib/mod.py')],
+    # 13: two symmetric branches, each with a symlink to a third directory tree (no cycle)
+    [('f', 'o/d/x/f'), ('f', 'p/d/x/f'), ('f', 'q/d/x/f'), ('l', 'p/lnk', '../o'), ('l', 'q/lnk', '../o'), ('f', 'o/d/f'), ('f', 'p/f')],
 ]
 
 NAME_POOL = ['a', 'b', 'A', 'ab', 'a.b', '.h', '.hd', 'x1', 'd', 'e', '[a]', 'a*']
